@@ -355,6 +355,12 @@ STMTS = [
     '...',
     '"docstring"',
     'pass',
+    # physical lines indented less than the def they belong to (\x01 = stays in column 0): inside a class or a function the
+    # source of such a def cannot be dedented, so it does not parse on its own
+    's = \"\"\"text\n\x01in column zero\n\"\"\"\nF(*args, **kwargs)',
+    'r = F(*args,\n\x01**kwargs)',
+    '\x01# a comment in column zero\nF(*args, **kwargs)',
+    'r = [\n\x01  1,\n]\nreturn F(*args, **kwargs)',
 ]
 HEADS = [
     ('def w(a, *args, **kwargs):', 'w'),
@@ -395,7 +401,7 @@ LAMBDAS = [
 
 
 def indent(text, n):
-    return ''.join(' ' * n + l if l.strip() else l for l in text.splitlines(True))
+    return ''.join(l[1:] if l.startswith('\x01') else ' ' * n + l if l.strip() else l for l in text.splitlines(True))
 
 
 def st_source():
@@ -540,6 +546,9 @@ class K:
     def __call__(self, a: Undefined):
         return None
 instance = K()
+Alias = int
+def rebound(a: Alias, b: Alias = None) -> Alias:
+    return 0
 """
 
 
@@ -566,6 +575,28 @@ def shard_sphinx_module(arg):
             st.cls('sphinx-synthetic')
             st.nontriv(('sphinx', qual))
             check_sphinx(name + '.' + qual, obj, st, {'kind': 'sphinx', 'object': qual})
+        # the module is executed again in place with another binding (importlib.reload): the new function objects are
+        # documented with what their annotations denote now
+        ext = _sphinx.get('mod')
+        if ext is not None:
+            seen = []
+            for binding in ('int', 'str', 'int', 'float'):
+                exec(compile(SPHINX_SRC.replace('Alias = int', 'Alias = ' + binding), '<verif-sphinx>', 'exec'), mod.__dict__)
+                st.case()
+                try:
+                    out = ext.process_signature(None, 'function', name + '.rebound', mod.rebound, {}, '<in-sig>', '<in-ret>')
+                except Exception as e:
+                    st.fail('C07/sphinx-hook-raised/%s' % frame_bucket(e), {'kind': 'sphinx', 'object': 'rebound'},
+                            'sphinxext.process_signature(rebound) raised %s: %s' % (type(e).__name__, e))
+                    break
+                seen.append(out[0])
+                want = '(a: {0}, b: {0} = None)'.format(binding)
+                if out[0] != want:
+                    st.fail('C07/sphinx-hook-string/after-reload', {'kind': 'sphinx', 'object': 'rebound'},
+                            'module executed again in place with Alias = %s: process_signature(rebound)[0] = %r, expected %r (sequence so far %r)' % (
+                                binding, out[0], want, seen))
+                    break
+            st.nontriv(('sphinx', 'rebound-after-reload'))
     finally:
         sys.modules.pop(name, None)
     return st
